@@ -25,11 +25,14 @@ REPO_DIR = os.environ.get("VERIF_REPO", "/repo")
 class Violation(Exception):
     """The property does not hold on the case being checked"""
 
-    def __init__(self, signature, message, detail=None):
+    def __init__(self, signature, message, detail=None, replay_case=None, replay_sub=None):
         Exception.__init__(self, "%s: %s" % (signature, message))
         self.signature = signature
         self.message = message
         self.detail = detail
+        # a smaller case (possibly of another sub-check) that reproduces it
+        self.replay_case = replay_case
+        self.replay_sub = replay_sub
 
 
 class Skip(Exception):
@@ -47,13 +50,16 @@ def fail(signature, message, detail=None):
 class Info(object):
     """What the oracle says about a passing case"""
 
-    __slots__ = ("nt", "classes", "sample", "key")
+    __slots__ = ("nt", "classes", "sample", "key", "multi")
 
-    def __init__(self, nt=False, classes=(), sample=None, key=None):
+    def __init__(self, nt=False, classes=(), sample=None, key=None, multi=None):
         self.nt = nt
         self.classes = tuple(classes)
         self.sample = sample
         self.key = key
+        # a case that stands for many executions (e.g. an enumeration of
+        # schedules) reports each of them as its own Info
+        self.multi = multi
 
 
 def safe(obj, depth=0, limit=400):
@@ -113,6 +119,10 @@ class Recorder(object):
         self.notes = []
 
     def record(self, case, info):
+        if info is not None and info.multi is not None:
+            for sub_info in info.multi:
+                self.record(case, sub_info)
+            return
         self.evaluations += 1
         if info is None:
             info = Info()
